@@ -128,6 +128,10 @@ class TokPE(pe.PE):
                     state.roots[nm] = frozenset(self.byte_domain)
                 return pe.R(nm)
             state.trace.append(("lookahead", path))
+            if self.length < 0:
+                # NUL-terminated mode: one read past the checked position is enough to decide the rule; do not keep
+                # walking through memory the parser was never given
+                self.abort = "read of input offset %r in NUL-terminated mode" % (el,)
             return pe.TOP
         return pe.TOP
 
@@ -242,6 +246,16 @@ class Table:
         outs = []
         leaves = self._split_on_tracked(leaves)
         for lf in leaves:
+            if lf.kind == "abort":
+                o = Outcome()
+                o.bytes = frozenset(lf.state.roots.get("c", frozenset(byte_domain if byte_domain is not None else range(-128, 128))))
+                o.bytes1 = None
+                o.err, o.ret_nonnull, o.consumed, o.next = None, None, None, None
+                o.appends, o.calls, o.gloads, o.pbstores, o.reads = [], [], [], 0, 1
+                o.lookahead = True
+                o.field_reads, o.field_writes, o.tail, o.stores = [], [], (), None
+                outs.append(o)
+                continue
             if lf.kind != "ret":
                 raise AnalysisBroken("tokener walk ended with %s at %s (config %s)" % (lf.kind, lf.at.locstr() if lf.at else "?", self.cfg_str(cfg)))
             o = Outcome()
